@@ -8,11 +8,19 @@ prop("C14", "exploration",
      "(random part), or any enumerated history; distinct by hash of the whole history. Session unit: the same generated histories "
      "through the real SessionState.readPacketLocked - every probe is a sealed packet with that counter, genuine (check-and-mark) or "
      "with one ciphertext bit flipped (fails authentication); it is returned iff genuine and fresh by the reference filter over the "
-     "counters of ACCEPTED packets only.",
+     "counters of ACCEPTED packets only. Server unit: histories of 2..400 such probes (same probe generator) sent as datagrams to a "
+     "real serving Server with an established session (real handshake over simnet in a synctest bubble, discoverable or hidden), "
+     "each from a drawn SOURCE ADDRESS (handshake address, same host other port, two other hosts, same host in the other address "
+     "byte form; the peer mostly stays and now and then moves or moves back; three address families), in bursts of 1..16 datagrams, "
+     "through the real read loop and Server.handleSessionMessage; the application reads the Handle with ReadMsg. A probe is handed to "
+     "the application (exactly once, with its own payload) iff it is genuine and fresh by the reference filter over the accepted "
+     "counters, whatever address it or earlier packets came from. Non-trivial (server unit) = an already accepted counter is probed "
+     "after a packet was accepted from a changed source address AND the history contains forged packets.",
      ["counters stay below 2^63 as the property states", "Mark is only called after a successful Check (as readPacketLocked does)"],
      [dict(name="rapid", pkg="transport", run="^TestVerifC14Random$", shards=dict(quick=8, thorough=16), thorough_scale=100),
       dict(name="enum", pkg="transport", run="^TestVerifC14Exhaustive$", shards=dict(quick=4, thorough=4)),
-      dict(name="session", pkg="transport", run="^TestVerifC14Session$", shards=dict(quick=8, thorough=16), thorough_scale=50)],
+      dict(name="session", pkg="transport", run="^TestVerifC14Session$", shards=dict(quick=8, thorough=16), thorough_scale=50),
+      dict(name="server", pkg="transport", run="^TestVerifC14Server$", shards=dict(quick=8, thorough=16), thorough_scale=25)],
      exhaustive_core=True,
      text="Model-based search: the real SlidingWindow is compared step by step with a set+max model over generated histories "
           "(edge-biased, up to 3000 probes) and over an exhaustively enumerated short-history sub-space. Absence is not shown; "
